@@ -20,7 +20,7 @@ STRINGS = {
     "num": ["5", "12", "1000", "7"],
     "frac": ["2,5", "0,75", "10,125"],
     "op": ["+", "-", "*", "/"],
-    "word": ["zorp", "blip", "quux"],
+    "word": ["zorp", "blip", "quux", "ième", "jährig", "günlük", "march日本"],
     "mb2": ["ğü", "çöş", "ñandú", "ärger"],
     "mb3": ["日本", "€uro", "한국"],
     "sym4": ["😀", "𝛑"],
@@ -46,18 +46,25 @@ def compose(classes, comment, rng, gap=" "):
     text = ""
     lex = []
     first = True
+    glue = gap == "glue"
     for group in parts:
         for s, kind in group:
+            glued = False
             if not first:
-                text += gap
+                if glue and rng.random() < 0.6 and not text.endswith("#"):
+                    glued = True           # lexemes written without a gap: what they tokenise to is not claimed, only well-formedness
+                    if lex and lex[-1][1] == len(text):
+                        lex.pop()
+                else:
+                    text += " " if glue else gap
             first = False
             start = len(text)
             text += s
-            if kind:
+            if kind and not glued:
                 lex.append([start, len(text), kind])
     if comment:
         if text:
-            text += gap
+            text += " " if glue else gap
         start = len(text)
         text += "# " + rng.choice(["note", "ğü 5", "日本 + 1", "x"])
         lex.append([start, len(text), "Comment"])
@@ -83,13 +90,13 @@ def run(rep):
     if len(gen) > 40000:
         gen = rng.sample(gen, 40000)
     for c in gen:
-        for gap in (" ", "  "):
+        for gap in (" ", "  ", "glue"):
             text, lex = compose(c["seq"], c["comment"], rng, gap)
             lines.append((text, lex, "en" if len(lines) % 3 else "tr"))
     classes = list(STRINGS) + ["lp_rp", "assign"]
     for i in range(1500 if quick else 20000):
         seq = [rng.choice(classes) for _ in range(rng.randint(4, 10))]
-        text, lex = compose(seq, rng.random() < 0.4, rng, rng.choice([" ", " ", "   "]))
+        text, lex = compose(seq, rng.random() < 0.4, rng, rng.choice([" ", " ", "   ", "glue", "glue"]))
         if len(text) <= 250:
             lines.append((text, lex, rng.choice(["en", "tr"])))
     cases = []
